@@ -260,15 +260,17 @@ def uninit_probe(res, size):
         w.initialize_from_persisted(p)
 
 
-def lost_state(res, k, start, respond):
+def lost_state(res, k, start, respond, protect_first=False):
     """State lost for real: a file-backed context accepts k requests (answering them or not), the process dies without a clean
     stop, the context is loaded again.  Until the peer has echoed a value issued by the new process nothing is accepted -
     neither the requests seen before nor a fresh one - and the Echo exchange then lets exactly the echoing request in."""
     from .c13_nonce import Run
-    case = {"family": "lost-state", "accepted_before": k, "chunk_start": start, "respond": respond}
+    case = {"family": "lost-state", "accepted_before": k, "chunk_start": start, "respond": respond, "protect_first": protect_first}
     res.evaluations += 1
     r = Run(start, 10000)
     try:
+        if protect_first:
+            r.op(("P",))       # the context sends something of its own before it receives anything (a store before the first strike-out)
         for n in range(k):
             r.op(("A", n))
             if respond:
@@ -296,7 +298,7 @@ def lost_state(res, k, start, respond):
             res.violate(v)
         res.traces += 1
         res.outcomes.add(("lost", k, len(r.accepted_ever)))
-        res.signatures.add(("lost", k, start, respond))
+        res.signatures.add(("lost", k, start, respond, protect_first))
     finally:
         r.close()
 
@@ -309,6 +311,7 @@ def job(arg):
             for start in (1, 10):
                 for respond in (False, True):
                     lost_state(res, k, start, respond)
+                    lost_state(res, k, start, respond, protect_first=True)
         res.sample({"lost_state": "k requests accepted, process death, reload", "k": [1, 2, 3]})
     elif kind == "window":
         size, init, depth = item
@@ -346,7 +349,7 @@ def run(tier, seed, jobs):
 def replay(case, scenario, seed):
     res = Result()
     if case["family"] == "lost-state":
-        lost_state(res, case["accepted_before"], case["chunk_start"], case["respond"])
+        lost_state(res, case["accepted_before"], case["chunk_start"], case["respond"], case.get("protect_first", False))
     elif case["family"] == "uninit":
         uninit_probe(res, case["size"])
     elif case["family"] == "window":
